@@ -2,13 +2,13 @@ package vc
 
 import (
 	"fmt"
-	"os"
-	"runtime/debug"
 	"go/ast"
 	"go/constant"
 	"go/token"
 	"go/types"
 	"math/big"
+	"os"
+	"runtime/debug"
 	"strconv"
 	"strings"
 )
@@ -1094,6 +1094,31 @@ func (env *SpecEnv) call(n *ast.CallExpr) sv {
 			return sv{V: c.Bool(!sv0.Tag.Segs[0].Unordered), T: boolT}
 		}
 		return sv{V: c.True(), T: boolT}
+	case "lacks":
+		// lacks(s, c): byte c does not occur in string s. Besides the quantified meaning the result carries a
+		// marker predicate on the identity of s, which the string intrinsics look up in the path condition
+		// (a whole input string without the separator is one piece of a Split). The marker has no definition:
+		// lacks() can be assumed about inputs, never proved.
+		v := arg(0)
+		sval, ok := v.V.(*StringVal)
+		if !ok {
+			env.fail("lacks of %T", v.V)
+		}
+		bt := sv{V: zeroOf(c, e.elemSort(types.Typ[types.Uint8])), T: types.Typ[types.Uint8]}
+		ch, _ := env.term(arg(1), bt)
+		if !ch.IsConst() {
+			env.fail("lacks: the byte must be a constant")
+		}
+		if str, isc := concreteString(sval); isc {
+			return sv{V: c.Bool(strings.IndexByte(str, byte(ch.C.Uint64())) < 0), T: boolT}
+		}
+		k := c.Var(c.FreshName("k"), e.idxSort())
+		body := c.Implies(e.inRange(k, sval.Len), c.Not(c.Eq(e.sel(sval.C, c.Add(sval.Off, k)), ch)))
+		r := c.Forall([]*Term{k}, body)
+		if id := e.strIdent(sval); id != nil {
+			r = c.And(r, c.App(fmt.Sprintf("lacks_%02x", ch.C.Uint64()), BoolS, id...))
+		}
+		return sv{V: r, T: boolT}
 	case "text":
 		// text(part, ...): the string made of the parts in order; a part is a string expression, dec(x)
 		// (signed decimal rendering of an integer) or udec(x) (unsigned). The result carries the list of its
@@ -1136,7 +1161,16 @@ func (env *SpecEnv) call(n *ast.CallExpr) sv {
 		if oka && okb {
 			return sv{V: c.Bool(sa == sb), T: boolT}
 		}
-		na, nb := normSegs(e, as), normSegs(e, bs)
+		na, nb := normSegs(e, env.st, as), normSegs(e, env.st, bs)
+		if os.Getenv("GOVC_DEBUG") != "" {
+			for _, x := range [][]StrSeg{na, nb} {
+				var d []string
+				for _, sg := range x {
+					d = append(d, fmt.Sprintf("%s:%q:%v", sg.Kind, sg.Lit, sg.T))
+				}
+				debugf("texteq segs: %s", strings.Join(d, " | "))
+			}
+		}
 		if na == nil || nb == nil || len(na) != len(nb) {
 			return sv{V: c.False(), T: boolT}
 		}
@@ -1390,7 +1424,8 @@ func (env *SpecEnv) deepEq(a, b Val, sa, sb *State, depth int) *Term {
 
 // concreteString returns the Go string when every byte and the length are constants.
 // normSegs: the segment list of a tagged string with constant numbers rendered and adjacent literals merged.
-func normSegs(e *Exec, s *StringVal) []StrSeg {
+func normSegs(e *Exec, st *State, s *StringVal) []StrSeg {
+	facts := constFacts(st.PC)
 	var in []StrSeg
 	if str, ok := concreteString(s); ok {
 		in = []StrSeg{{Kind: "lit", Lit: str}}
@@ -1405,6 +1440,9 @@ func normSegs(e *Exec, s *StringVal) []StrSeg {
 		case "lit":
 		case "dec", "udec":
 			sg.Kind = "dec"
+			if len(facts) > 0 {
+				sg.T = e.C.Subst(sg.T, facts)
+			}
 			if sg.T.IsConst() {
 				v := new(big.Int).Set(sg.T.C)
 				if sg.Signed && sg.T.S.IsBV() && v.Bit(sg.T.S.W-1) == 1 {
